@@ -120,7 +120,7 @@ def term_text(rng, coef, name, kind):
     if one and k < 0.6:
         body = name
     elif k < 0.75 or kind != "int":
-        body = "%s*%s" % (mag, name)
+        body = "%s%s%s" % (mag, rng.choice(["*", "*", "*", " * ", "* "]), name)
     elif k < 0.9:
         body = "%s*%s" % (name, mag)
     else:
@@ -201,7 +201,8 @@ def gen_rational_line(rng, names, kind, allow_dead=True):
     # with densely numbered variables
     r = num_text(rng, kind) if (rng.random() < 0.85 or (nv == 0 and not allow_dead)) else "0"
     cmp = rng.choice(["<", "<=", ">", ">=", "<", "<=", ">", ">=", "=", "!="])
-    q = "%s/%s" % (numt, den)
+    # the same relation is written with or without blanks around the slash
+    q = "%s%s%s" % (numt, rng.choice(["/", "/", " / ", "/ ", " /"]), den)
     s = rng.random()
     if s < 0.75:
         return "%s %s %s" % (q, cmp, r)
